@@ -2,6 +2,7 @@ import SphericalVerif.Props.C17
 import SphericalVerif.Props.HKernel
 import SphericalVerif.Props.GenH
 import SphericalVerif.Props.GenFill
+import SphericalVerif.Props.Footprint
 #print axioms C17.objDvec_eq_map
 #print axioms C17.objYvec_eq_map
 #print axioms C17.objDvec_getElem
@@ -24,3 +25,17 @@ import SphericalVerif.Props.GenFill
 #print axioms GenFill.gen_D_entry
 #print axioms GenFill.gen_Y_entry
 #print axioms GenFill.gen_d_eq_docd
+#print axioms Footprint.step3_only
+#print axioms Footprint.step1_only
+#print axioms Footprint.step2_only
+#print axioms Footprint.step4_only
+#print axioms Footprint.step5_only
+#print axioms Footprint.fill_d_only
+#print axioms Footprint.fill_D_only
+#print axioms Footprint.fill_sYlm_only
+#print axioms Footprint.euler_only
+#print axioms Footprint.cpow_only
+#print axioms Footprint.evalH_only
+#print axioms Footprint.rotH_only
+#print axioms Footprint.wigner_H_only
+#print axioms Footprint.gen_D_chain_inplace
